@@ -3,8 +3,7 @@
 import json, os, re, glob
 V = os.path.dirname(os.path.dirname(os.path.abspath(__file__)))
 props = {json.loads(l)["id"]: json.loads(l) for l in open(os.path.join(V, "properties.jsonl"))}
-NOT_CAUGHT = {"C01_2": "NOT CAUGHT - outside the stated bounds: the change only shows when one unit is flagged by BOTH outlier models, which need "
-              "more than 20 modelled reporting units and an LP solve inside the eligibility code (excluded from C01 / C09, see DESIGN.md section 5)"}
+NOT_CAUGHT = {}
 rows = []
 for d in sorted(glob.glob(os.path.join(V, "seeded", "C*_*"))):
     sid = os.path.basename(d)
